@@ -15,13 +15,14 @@ import z3
 from z3 import And, BoolVal, ForAll, Function, If, Implies, Int, IntSort, IntVal, K as ConstArray, Real, RealSort, Select, Store
 
 from ..pyvc.core import Abstract, IterSpec, LoopSpec, Obj, PyDict, Unsupported, fresh, is_z3, to_real
-from .ndmodel import NdContract
+from .ndmodel import Nd, NdContract, is_nd
 from .to_simple import FIELDS, GV, M, ROW
 
 TO = "fairlearn/postprocessing/_threshold_optimizer.py"
 YG = Function("group_tpr_at_best", IntSort(), RealSort())
 k_ = Int("k")
 ALL = ("p_ignore", "prediction_constant") + FIELDS
+GI_ = Int("generic_grid_index")
 
 
 class EqualizedOddsEntries(NdContract):
@@ -254,3 +255,79 @@ def tradeoff_curve_defaults():
     d.update({k.arg: v for k, v in zip(a.kwonlyargs, a.kw_defaults) if v is not None})
     got = {k: (v.value if isinstance(v, ast.Constant) else ast.unparse(v)) for k, v in d.items()}
     return got
+
+
+class EqualizedOddsSelection(NdContract):
+    """Middle part of _threshold_optimization_for_equalized_odds: from `self._y_min = np.amin(y_values, axis=1)` to `self._y_best = ...`.
+    y_values[i, k] is the TPR of group k's hull at the shared FPR grid point i (contract of the curve loop).  The real `_extend_confusion_matrix` and the
+    real METRIC_DICT entry of the objective are executed symbolically on the point-wise arrays.
+    Postcondition (C04/C05, equalized odds): y_min[i] is the pointwise-lowest hull (a lower bound of every group, attained by one: assumed contract of
+    np.amin); i_best_EO is the FIRST grid index maximising the overall objective of the classifier with FPR x_i and TPR y_min[i] -
+    accuracy (n_neg*(1-x_i) + n_pos*y_min[i]) / n or balanced accuracy ((1-x_i) + y_min[i]) / 2; x_best = grid[i_best], y_best = y_min[i_best]."""
+    source, function = TO, "ThresholdOptimizer._threshold_optimization_for_equalized_odds"
+    check_pointwise_division = False          # positives = n_positive > 0 and negatives = n_negative > 0 (both classes present: precondition of the method)
+    prune = False
+
+    def __init__(self, objective):
+        self.objective = objective
+        self.variant = f"[{objective}]"
+
+    def body(self, fn):
+        start = [i for i, s in enumerate(fn.body) if isinstance(s, ast.Assign) and ast.unparse(s.targets[0]) == "self._y_min"]
+        end = [i for i, s in enumerate(fn.body) if isinstance(s, ast.Assign) and ast.unparse(s.targets[0]) == "self._y_best"]
+        if len(start) != 1 or len(end) != 1 or end[0] < start[0]:
+            raise Unsupported("selection part not found")
+        return fn.body[start[0]:end[0] + 1]
+
+    def params(self, eng, st):
+        from .to_simple import YC
+        self.G, self.npos, self.nneg = Int("grid_points"), Int("n_positive"), Int("n_negative")
+        self.XG, self.YMIN, self.WK = Function("x_grid", IntSort(), RealSort()), Function("y_min", IntSort(), RealSort()), Function("lowest_group_at", IntSort(), IntSort())
+        i = Int("ii")
+        st.assume(self.G >= 2, M >= 1, self.npos >= 1, self.nneg >= 1,
+                  ForAll([i], Implies(And(0 <= i, i < self.G), And(0 <= self.XG(i), self.XG(i) <= 1)), patterns=[self.XG(i)]),
+                  ForAll([i, k_], Implies(And(0 <= i, i < self.G, 0 <= k_, k_ < M), And(0 <= YC(k_, i), YC(k_, i) <= 1)), patterns=[YC(k_, i)]))
+        self.yv = Nd("y_values", (self.G, M), "frame", "DEFAULT", cell=lambda i_, k: YC(k, i_), is_y_values=True)
+        grid = Nd("x_grid", (self.G,), "ndarray", "ERASED", cell=lambda i_: self.XG(i_), is_grid=True)
+        st.env.update({"self": Obj("ThresholdOptimizer", {"_x_grid": grid, "objective": self.objective, "objective_": self.objective}),
+                       "y_values": self.yv, "n_positive": self.npos, "n_negative": self.nneg})
+
+    def on_call(self, eng, st, node, name, recv, args, kwargs):
+        from .to_simple import YC
+        if name == "numpy.amin" and args and args[0] is self.yv:
+            eng.oblige(st, "lowest_hull_taken_over_the_groups", BoolVal(kwargs.get("axis", args[1] if len(args) > 1 else None) == 1), "wiring", node)
+            i = Int("ia")
+            st.assume(ForAll([i, k_], Implies(And(0 <= i, i < self.G, 0 <= k_, k_ < M), self.YMIN(i) <= YC(k_, i)), patterns=[YC(k_, i)]),
+                      ForAll([i], Implies(And(0 <= i, i < self.G), And(0 <= self.WK(i), self.WK(i) < M, self.YMIN(i) == YC(self.WK(i), i))), patterns=[self.YMIN(i)]))
+            return Nd("y_min", (self.G,), "series", "DEFAULT", cell=lambda i_: self.YMIN(i_), is_y_min=True)
+        if name == "numpy.around" and args and is_nd(args[0]):
+            return args[0]          # rounding to 15 decimals: identity on the reals (A1)
+        if name == "idxmax" and is_nd(recv) and recv.cell:
+            ib, j = fresh("i_best_EO"), Int("jx")
+            c = recv.cell
+            st.assume(0 <= ib, ib < self.G, ForAll([j], Implies(And(0 <= j, j < self.G), c(j) <= c(ib))), ForAll([j], Implies(And(0 <= j, j < ib), c(j) < c(ib))))
+            st.ghost["objective_cell"] = c
+            return ib
+        return super().on_call(eng, st, node, name, recv, args, kwargs)
+
+    def on_subscript(self, eng, st, node, base, index):
+        if is_nd(base) and base.cell and len(base.shape) == 1 and is_z3(index) and not is_nd(index):
+            return base.cell(index)
+        return super().on_subscript(eng, st, node, base, index)
+
+    def post(self, eng, st, status, value):
+        f = st.env["self"].fields
+        ib = st.env.get("i_best_EO")
+        if status != "return" or not is_z3(ib) or not is_z3(f.get("_x_best")) or not is_z3(f.get("_y_best")):
+            return [("selects_a_grid_point_and_stores_x_best_y_best", BoolVal(False))]
+        x, y = (lambda i_: self.XG(i_)), (lambda i_: self.YMIN(i_))
+        npos, nneg = z3.ToReal(self.npos), z3.ToReal(self.nneg)
+        if self.objective == "accuracy_score":
+            obj = lambda i_: (nneg * (1 - x(i_)) + npos * y(i_)) / (npos + nneg)
+        else:
+            obj = lambda i_: ((1 - x(i_)) + y(i_)) / 2
+        rng = And(0 <= GI_, GI_ < self.G)
+        return [("best_index_in_range", And(0 <= ib, ib < self.G)),
+                ("x_best_is_the_grid_value_and_y_best_the_lowest_hull_at_the_best_index", And(to_real(f["_x_best"]) == x(ib), to_real(f["_y_best"]) == y(ib))),
+                ("best_index_maximises_the_overall_objective", Implies(rng, obj(GI_) <= obj(ib))),
+                ("best_index_is_the_first_maximiser", Implies(And(rng, GI_ < ib), obj(GI_) < obj(ib)))]
